@@ -207,6 +207,8 @@ def main():
     if tier == 'thorough':
         os.environ['HB_COQCHK'] = '1'
     if args.no_proof:
+        global DEV_MODE
+        DEV_MODE = True
         obligations, discharged, thm_details, thm_broken = 0, 0, [], []
     else:
         obligations, discharged, thm_details, thm_broken = check_theorems(prop, log)
@@ -314,6 +316,9 @@ def main():
     sys.exit(1 if violations else 0)
 
 
+DEV_MODE = False      # --no-proof: development runs must not overwrite the evidence of real runs
+
+
 def write_evidence(prop, tier, seed, t0, fam, obligations, discharged, thm_details, samples, dist,
                    nviol, log, thm_broken, extra):
     os.makedirs(os.path.join(VERIF, 'evidence'), exist_ok=True)
@@ -353,7 +358,11 @@ def write_evidence(prop, tier, seed, t0, fam, obligations, discharged, thm_detai
         'assumptions': getattr(fam, 'ASSUMPTIONS', []),
         'wall_s': round(time.time() - t0, 2), 'violations': nviol,
     }
-    with open(os.path.join(VERIF, 'evidence', prop + '.json'), 'w') as f:
+    dest = os.path.join(VERIF, 'evidence', prop + '.json')
+    if DEV_MODE:
+        os.makedirs(os.path.join(WORK, 'evidence-dev'), exist_ok=True)
+        dest = os.path.join(WORK, 'evidence-dev', prop + '.json')
+    with open(dest, 'w') as f:
         json.dump(ev, f, indent=1, ensure_ascii=False)
 
 
